@@ -809,6 +809,7 @@ var _ rpc.Resources
 //@   safety[C15]
 //@ closure (*wsConn).TokenReset#2
 //@   requires c != nil
+//@   safety[C15]
 
 // --- collector helpers (C02) ---
 
